@@ -1,33 +1,47 @@
 #!/bin/sh
-# usage: tools/confirm_seed.sh <seed dir containing patch.diff, demo.cpp>
+# usage: [CS_SLOT=n] tools/confirm_seed.sh <seed dir containing patch.diff, demo.cpp>
 # Confirms independently that a seeded change (1) applies and compiles, (2) passes the existing stable test suite,
-# (3) makes its demonstration fail while the unpatched tree passes it. Uses a scratch worktree; removes it afterwards.
+# (3) makes its demonstration fail while the unpatched tree passes it.
+# Uses a persistent scratch worktree + build per slot (/var/tmp/cs_base_<slot>, library AND tests, rebuilt incrementally and reset to
+# /repo's HEAD before every use); remove these directories when done (tools/confirm_seed.sh --clean).
 # demo.cpp: standalone program (Qt5 Core/Network/Xml + libQXmpp, private headers allowed); exit 0 = property holds, else violated.
 set -u
+if [ "$1" = "--clean" ]; then
+  for d in /var/tmp/cs_base_*; do [ -d "$d/repo" ] && git -C /repo worktree remove --force $d/repo; rm -rf $d; done; exit 0
+fi
 S=$(readlink -f "$1")
-W=/var/tmp/cs_$(basename $S)_$$
+SLOT=${CS_SLOT:-0}
+W=/var/tmp/cs_base_$SLOT
 FLAGS="-std=c++20 -O1 -g -fPIC $(pkg-config --cflags Qt5Core Qt5Network Qt5Xml Qt5Test)"
 LIBS="$(pkg-config --libs Qt5Core Qt5Network Qt5Xml Qt5Test)"
 res() { echo "CONFIRM $(basename $S): $*"; }
-git -C /repo worktree add --detach -f $W/repo HEAD >/dev/null 2>&1 || { res "worktree failed"; exit 2; }
-cleanup() { git -C /repo worktree remove --force $W/repo >/dev/null 2>&1; rm -rf $W; }
-build_demo() { # $1 = build dir, $2 = output
-  EXTRA=""; [ -f $S/demo.moc.h ] && EXTRA=""
-  if grep -q Q_OBJECT $S/demo.cpp; then moc -I$W/repo/src/base -I$W/repo/src/client -I$W/repo/src/server -I$W/repo/tests -I$1/src $(pkg-config --cflags Qt5Core Qt5Network Qt5Xml Qt5Test) $S/demo.cpp -o $W/demo.moc; fi
-  g++ $FLAGS -I$W -I$W/repo/src/base -I$W/repo/src/client -I$W/repo/src/server -I$W/repo/tests -I$1/src $S/demo.cpp -o $2 -L$1/src -lQXmppQt5 $LIBS -Wl,-rpath,$1/src
+HEAD=$(git -C /repo rev-parse HEAD)
+if [ ! -d $W/repo ]; then
+  mkdir -p $W
+  git -C /repo worktree add --detach -f $W/repo HEAD >/dev/null 2>&1 || { res "worktree failed"; exit 2; }
+  cmake -G Ninja -S $W/repo -B $W/b -DCMAKE_BUILD_TYPE=RelWithDebInfo -DCMAKE_CXX_FLAGS=-Wno-error -DBUILD_TESTS=ON -DBUILD_INTERNAL_TESTS=ON -DBUILD_EXAMPLES=OFF >/dev/null 2>&1 || { res "configure failed"; exit 2; }
+fi
+git -C $W/repo checkout -q -- . && git -C $W/repo checkout -q --detach $HEAD || { res "cannot reset worktree"; exit 2; }
+build() { cmake --build $W/b -j${CS_JOBS:-8} > $W/build.log 2>&1; }
+build_demo() { # $1 = output
+  if grep -q Q_OBJECT $S/demo.cpp; then moc -I$W/repo/src/base -I$W/repo/src/client -I$W/repo/src/server -I$W/repo/tests -I$W/b/src $(pkg-config --cflags Qt5Core Qt5Network Qt5Xml Qt5Test) $S/demo.cpp -o $W/demo.moc; fi
+  g++ $FLAGS -I$W -I$W/repo/src/base -I$W/repo/src/client -I$W/repo/src/server -I$W/repo/tests -I$W/b/src $S/demo.cpp -o $1 -L$W/b/src -lQXmppQt5 $LIBS -Wl,-rpath,$W/b/src
 }
-# unpatched build (library only) + demo must pass
-cmake -G Ninja -S $W/repo -B $W/b0 -DCMAKE_BUILD_TYPE=RelWithDebInfo -DCMAKE_CXX_FLAGS=-Wno-error -DBUILD_TESTS=OFF -DBUILD_EXAMPLES=OFF >/dev/null 2>&1 && cmake --build $W/b0 -j16 >/dev/null 2>&1 || { res "clean build failed"; cleanup; exit 2; }
-build_demo $W/b0 $W/demo0 > $W/demo0.log 2>&1 || { res "demo does not compile on clean tree"; tail -5 $W/demo0.log; cleanup; exit 2; }
+# unpatched: build + demo must pass
+build || { res "clean build failed"; tail -5 $W/build.log; exit 2; }
+build_demo $W/demo0 > $W/demo0.log 2>&1 || { res "demo does not compile on clean tree"; tail -5 $W/demo0.log; exit 2; }
 (cd $W && QT_QPA_PLATFORM=offscreen timeout 300 ./demo0 > $W/run0.log 2>&1); RC0=$?
-# patched build with tests
-(git -C $W/repo apply $S/patch.diff 2>/dev/null || (cd $W/repo && patch -p1 -F3 --no-backup-if-mismatch -s < $S/patch.diff)) || { res "patch does not apply"; cleanup; exit 2; }
-cmake -G Ninja -S $W/repo -B $W/b1 -DCMAKE_BUILD_TYPE=RelWithDebInfo -DCMAKE_CXX_FLAGS=-Wno-error -DBUILD_TESTS=ON -DBUILD_INTERNAL_TESTS=ON -DBUILD_EXAMPLES=OFF >/dev/null 2>&1 && cmake --build $W/b1 -j16 > $W/build1.log 2>&1 || { res "patched tree does not compile"; tail -5 $W/build1.log; cleanup; exit 2; }
-(cd $W/b1 && QT_QPA_PLATFORM=offscreen ctest -j8 --timeout 300 -E "tst_qxmppiceconnection|tst_qxmppserver" > $W/ctest.log 2>&1); RCT=$?
-build_demo $W/b1 $W/demo1 > $W/demo1.log 2>&1 || { res "demo does not compile on patched tree"; cleanup; exit 2; }
+# patched: build with tests, stable suite, demo must fail
+(git -C $W/repo apply $S/patch.diff 2>/dev/null || (cd $W/repo && patch -p1 -F3 --no-backup-if-mismatch -s < $S/patch.diff)) || { res "patch does not apply"; git -C $W/repo checkout -q -- .; exit 2; }
+build || { res "patched tree does not compile"; tail -5 $W/build.log; git -C $W/repo checkout -q -- .; exit 2; }
+(cd $W/b && QT_QPA_PLATFORM=offscreen ctest -j4 --timeout 300 -E "tst_qxmppiceconnection|tst_qxmppserver" > $W/ctest.log 2>&1); RCT=$?
+if [ $RCT -ne 0 ]; then  # loopback-port clashes with other ctest runs on the machine: re-run the failed ones alone
+  (cd $W/b && QT_QPA_PLATFORM=offscreen ctest --rerun-failed --timeout 300 > $W/ctest2.log 2>&1); RCT=$?
+fi
+build_demo $W/demo1 > $W/demo1.log 2>&1 || { res "demo does not compile on patched tree"; git -C $W/repo checkout -q -- .; exit 2; }
 (cd $W && QT_QPA_PLATFORM=offscreen timeout 300 ./demo1 > $W/run1.log 2>&1); RC1=$?
 res "clean-demo rc=$RC0 (want 0)  tests rc=$RCT (want 0: $(grep -c Passed $W/ctest.log) passed, $(grep -c '\*\*\*Failed\|Failed ' $W/ctest.log) failed)  patched-demo rc=$RC1 (want !=0)"
 [ $RCT -ne 0 ] && grep -i "failed" $W/ctest.log | head -5
 tail -3 $W/run1.log
-cleanup
+git -C $W/repo checkout -q -- .
 [ $RC0 -eq 0 ] && [ $RCT -eq 0 ] && [ $RC1 -ne 0 ]
